@@ -510,6 +510,8 @@ func checkC20(c *Check) {
 	if uh0 := handlerOf(unc); uh0 != nil {
 		ruleWholeInputCopied(c, p, uh0, "Reader", "uncompress")
 		ruleNamesUnchanged(c, p, uh0, "uncompress")
+		ruleInputOnlyThroughReader(c, p, uh0)
+		c.RuleDoc["R20.16"] = "the compressed input is read by the lz4 Reader only (no pre-check of the command's own that demands more bytes than the smallest frame has)"
 	}
 	c.RuleDoc["R20.13"] = "data moves into the Writer / out of the Reader only through io.Copy (to the end of the source)"
 	c.RuleDoc["R20.14"] = "the file opened is the file named on the command line (plus or minus the extension)"
@@ -1642,4 +1644,122 @@ func originOfVar(v ssa.Value) ssa.Value {
 		v = srcs[0]
 	}
 	return v
+}
+
+// R20.16: the compressed input reaches the decoder untouched. In the uncompress handler the file opened for reading
+// is handed to the lz4 Reader (Reset / NewReader) and is otherwise only inspected (Stat, Name, Close, Seek): a read
+// of the command's own on it - a header pre-check, say - either takes bytes away from the decoder or demands more
+// bytes than the smallest frame has (4 magic + 3 descriptor + 4 end mark = 11; an empty file compressed without
+// content checksum is 11 bytes long). A peek of at most 11 bytes into a local array is tolerated.
+func ruleInputOnlyThroughReader(c *Check, p *Program, h *ssa.Function) {
+	const smallestFrame = 11
+	strip := func(v ssa.Value) ssa.Value {
+		for i := 0; i < 6; i++ {
+			switch x := v.(type) {
+			case *ssa.MakeInterface:
+				v = x.X
+				continue
+			case *ssa.ChangeInterface:
+				v = x.X
+				continue
+			}
+			nv := originOfVar(v)
+			if nv == v {
+				break
+			}
+			v = nv
+		}
+		return v
+	}
+	isInput := func(v ssa.Value) bool {
+		v = strip(v)
+		ex, ok := v.(*ssa.Extract)
+		if !ok || ex.Index != 0 {
+			return false
+		}
+		call, isC := ex.Tuple.(*ssa.Call)
+		return isC && calleeIs(call, "os", "Open")
+	}
+	bufLen := func(v ssa.Value) (int64, bool) {
+		sl, ok := v.(*ssa.Slice)
+		if !ok || sl.Low != nil || sl.High != nil {
+			return 0, false
+		}
+		pt, isP := sl.X.Type().Underlying().(*types.Pointer)
+		if !isP {
+			return 0, false
+		}
+		arr, isA := pt.Elem().Underlying().(*types.Array)
+		if !isA {
+			return 0, false
+		}
+		return arr.Len(), true
+	}
+	opens, handed, n := 0, 0, 0
+	for _, g := range lz4cFamily(h) {
+		for _, ci := range callsIn(g) {
+			if calleeIs(ci, "os", "Open") {
+				opens++
+			}
+			f := staticCallee(ci)
+			if f == nil || f.Pkg == nil || f.Pkg == h.Pkg {
+				continue
+			}
+			args := ci.Common().Args
+			idx := -1
+			for i, a := range args {
+				if isInput(a) {
+					idx = i
+				}
+			}
+			if idx < 0 {
+				continue
+			}
+			if isLz4(f, "Reader.Reset") || isLz4(f, "NewReader") {
+				handed++
+				continue
+			}
+			reads := false
+			var size int64 = -1
+			switch {
+			case f.Pkg.Pkg.Path() == "os" && recvTypeName(f) == "File":
+				switch f.Name() {
+				case "Read", "ReadAt":
+					reads = true
+					if len(args) > 1 {
+						if l, ok := bufLen(args[1]); ok {
+							size = l
+						}
+					}
+				case "ReadFrom", "WriteTo", "ReadDir", "Readdir", "Readdirnames":
+					reads = true
+				}
+			case f.Pkg.Pkg.Path() == "io" && (f.Name() == "ReadFull" || f.Name() == "ReadAtLeast"):
+				reads = true
+				if len(args) > 1 {
+					if l, ok := bufLen(args[1]); ok {
+						size = l
+					}
+				}
+			default:
+				// handed to anything else as a reader (io.Copy, io.ReadAll, bufio.NewReader, ...)
+				if _, isIface := args[idx].Type().Underlying().(*types.Interface); isIface {
+					reads = true
+				}
+			}
+			if !reads {
+				continue
+			}
+			n++
+			c.Sites++
+			ok := size >= 0 && size <= smallestFrame
+			c.Cond(ok, "R20.16", fmt.Sprintf("lz4c.uncompress#input-only-through-reader#%d", n), p.InstrPos(ci), "the compressed input is read by the lz4 Reader only; the command itself peeks at no more than the smallest frame (11 bytes)", fmt.Sprintf("bounded peek of %d byte(s)", size), "the handler reads the input itself through "+f.Pkg.Pkg.Path()+"."+f.Name()+func() string {
+				if size >= 0 {
+					return fmt.Sprintf(" (%d bytes, the smallest frame has %d)", size, smallestFrame)
+				}
+				return ""
+			}()+": bytes are taken away from the decoder, or a short but well-formed .lz4 file is refused")
+		}
+	}
+	c.Cond(opens > 0 && handed > 0, "R20.16", "lz4c.uncompress#input-handed-to-reader", p.Pos(h.Pos()), "the file opened for reading is handed to the lz4 Reader", fmt.Sprintf("%d os.Open call(s), %d hand-over(s) to the Reader", opens, handed), fmt.Sprintf("%d os.Open call(s), %d hand-over(s) to the Reader (anchor unresolved)", opens, handed))
 }
